@@ -390,6 +390,18 @@ def standin_sampling_statistics(tier, seed):
                         continue
         if len(fails) >= 4:
             break
+    # readout confusion is drawn independently of the sampled bits, whatever kind of seed is given: on a Bell pair the confused bit of one
+    # half differs from the plain bit of the other half in a quarter of the repetitions
+    bell = cirq.Circuit(cirq.H(q[0]), cirq.CNOT(q[0], q[1]))
+    conf = cirq.measure(q[0], key="a", confusion_map={(0,): np.array([[0.75, 0.25], [0.25, 0.75]])})
+    plain = cirq.measure(q[1], key="b")
+    for simname, sim in (("Simulator", cirq.Simulator()), ("DensityMatrixSimulator", cirq.DensityMatrixSimulator()), ("Simulator(split_untangled_states=False)", cirq.Simulator(split_untangled_states=False))):
+        step = list(sim.simulate_moment_steps(bell, qubit_order=q[:2]))[-1]
+        for sd in seeds if tier != "quick" else seeds[:2] + seeds[3:]:
+            sname = "RandomState" if isinstance(sd, np.random.RandomState) else repr(sd)
+            res = step.sample_measurement_ops([conf, plain], repetitions=4 * N, seed=sd)
+            differ = (res["a"][:, 0] != res["b"][:, 0]).astype(int)
+            judge("Bell pair, 25% readout confusion on one half", f"{simname} step.sample_measurement_ops(seed={sname})", {(0,): int((differ == 0).sum()), (1,): int(differ.sum())}, {(0,): 0.75, (1,): 0.25})
     # whole runs (repetitions of a circuit with resets, mid-circuit measurements and feed-forward) through every stabilizer sampler:
     # per-repetition randomness includes the branch a RESET selects, not only measurement results
     from contracts import refsim
